@@ -157,3 +157,104 @@ def k3(I):
     n1 = I.ctx.fdiv(t1, NS)
     n2 = I.ctx.fdiv(t2, NS)
     I.check('plus_one_duration', smt.Implies(smt.Eq(n2, n1 + d), smt.Eq(id2, id1 + 1)))
+
+
+# ---------------------------------------------------------------- configuration: what instantiate / UpdateConfig accept
+
+from ..chain import Chain
+from .fm import EM, set_ownership
+
+CONTRACTS_EM = {EM: 'epoch-manager'}
+
+
+def _stored(I):
+    ec = I.world.store(EM)['config'].get('epoch_config')
+    return ec.get('duration'), ec.get('genesis_epoch')
+
+
+def _replay_update(label, m):
+    """native: instantiate with the stored configuration at time 0, move to the block time, send UpdateConfig as the owner, query Config"""
+    d0, g0, d, g, t = m['stored_duration'], m['stored_genesis'], m['duration'], m['genesis'], m['block_time_nanos']
+    steps = [{'op': 'set_time', 'nanos': str(t)},
+             {'op': 'execute', 'contract': 'epoch_manager', 'sender': 'creator', 'funds': [],
+              'msg': {'update_config': {'epoch_config': {'duration': str(d), 'genesis_epoch': str(g)}}}},
+             {'op': 'query', 'contract': 'epoch_manager', 'msg': {'config': {}}}]
+    sc = {'setup': {'time_nanos': '0', 'epoch': {'genesis': str(g0), 'duration': str(d0)}}, 'steps': steps}
+
+    def judge(out):
+        r, q = out['results'][1], out['results'][2]
+        valid = d >= 86400 and g >= t // NS
+        if 'ok' in r and not valid:
+            return True, 'UpdateConfig{duration %d, genesis %d} accepted at block time %d s (stored genesis %d): %s' % (d, g, t // NS, g0, json.dumps(q)[:200])
+        if 'ok' not in r and valid:
+            return True, 'valid UpdateConfig{duration %d, genesis %d} refused at block time %d s: %s' % (d, g, t // NS, json.dumps(r)[:200])
+        return False, 'native run agrees'
+    return sc, judge
+
+
+@obligation('C18', 'S1.update_config_validation', entries=['execute', 'update_config', 'validate_epoch_duration'], kind='S',
+            statement='UpdateConfig from the owner is accepted iff duration >= 86400 s and genesis >= block time (seconds) -- whatever configuration is stored, '
+                      'including a new genesis equal to the stored one; on acceptance exactly the new configuration is stored, on refusal nothing changes',
+            bounds='stored and new duration / genesis and block time (nanoseconds) full u64', covers=['accepted', 'refused'], replay=_replay_update)
+def s1_cfg(I):
+    d0 = I.sym('stored_duration', lo=86400, hi=U64)
+    g0 = I.sym('stored_genesis', hi=U64)
+    d = I.sym('duration', hi=U64)
+    g = I.sym('genesis', hi=U64)
+    t = I.sym('block_time_nanos', hi=U64)
+    ec0 = mk('mantra_dex_std::epoch_manager::EpochConfig', duration=d0, genesis_epoch=g0)
+    I.world.store(EM)['config'] = mk('mantra_dex_std::epoch_manager::Config', epoch_config=ec0)
+    set_ownership(I, EM, 'creator')
+    I.world.meta['time_nanos'] = t
+    ch = Chain(I, CONTRACTS_EM)
+    ec = mk('mantra_dex_std::epoch_manager::EpochConfig', duration=d, genesis_epoch=g)
+    st, _ = ch.execute('creator', EM, mk_enum('mantra_dex_std::epoch_manager::ExecuteMsg', 'UpdateConfig', epoch_config=Some(ec)), [])
+    now = I.ctx.fdiv(t, NS)
+    valid = smt.And(d >= 86400, g >= now)
+    sd, sg = _stored(I)
+    if st == 'ok':
+        I.cover('accepted')
+        I.check('accepted_only_with_valid_duration_and_future_genesis', valid)
+        I.check('new_configuration_stored', smt.And(smt.Eq(sd, d), smt.Eq(sg, g)))
+    else:
+        I.cover('refused')
+        I.check('refused_only_when_invalid', smt.Not(valid))
+        I.check('refusal_changes_nothing', smt.And(smt.Eq(sd, d0), smt.Eq(sg, g0)))
+
+
+def _replay_instantiate(label, m):
+    d, g, t = m['duration'], m['genesis'], m['block_time_nanos']
+    sc = {'setup': {'time_nanos': str(t), 'epoch': {'genesis': str(g), 'duration': str(d)}, 'only_epoch_manager': True}, 'steps': []}
+
+    def judge(out):
+        ok = 'epoch_manager' in out.get('addrs', {}) and not out.get('setup_error')
+        valid = d >= 86400 and g >= t // NS
+        if ok and not valid:
+            return True, 'instantiate{duration %d, genesis %d} accepted at block time %d s' % (d, g, t // NS)
+        if (not ok) and valid:
+            return True, 'valid instantiate{duration %d, genesis %d} refused at block time %d s: %s' % (d, g, t // NS, str(out.get('setup_error'))[:200])
+        return False, 'native run agrees'
+    return sc, judge
+
+
+@obligation('C18', 'S2.instantiate_validation', entries=['instantiate', 'validate_epoch_duration'], kind='S',
+            statement='instantiate is accepted iff duration >= 86400 s and genesis >= block time (seconds); the configuration given is the one stored',
+            bounds='duration, genesis, block time (nanoseconds) full u64', covers=['accepted', 'refused'], replay=_replay_instantiate)
+def s2_cfg(I):
+    d = I.sym('duration', hi=U64)
+    g = I.sym('genesis', hi=U64)
+    t = I.sym('block_time_nanos', hi=U64)
+    ec = mk('mantra_dex_std::epoch_manager::EpochConfig', duration=d, genesis_epoch=g)
+    msg = mk('mantra_dex_std::epoch_manager::InstantiateMsg', owner='creator', epoch_config=ec)
+    I.assume(I.addr_valid('creator'))
+    st, r = I.try_call('instantiate', [deps(EM), env(t, EM), message_info('creator', []), msg], CR)
+    now = I.ctx.fdiv(t, NS)
+    valid = smt.And(d >= 86400, g >= now)
+    if st == 'ok' and is_ok(r):
+        I.cover('accepted')
+        I.check('accepted_only_with_valid_duration_and_future_genesis', valid)
+        sd, sg = _stored(I)
+        I.check('configuration_stored', smt.And(smt.Eq(sd, d), smt.Eq(sg, g)))
+    else:
+        I.cover('refused')
+        I.check('refused_only_when_invalid', smt.Not(valid))
